@@ -2,7 +2,7 @@
     every persisted status change against (clause (15,_)); these theorems show they say what
     the property says. *)
 From Coq Require Import List ZArith Bool Arith.
-From FF Require Import Sx StoreModel StoreCheck PreCheck EngineMon LifeCycleFacts TaskRun TaskRunFacts Engine EngineFacts.
+From FF Require Import Sx StoreModel StoreCheck PreCheck EngineMon LifeCycleFacts TaskRun TaskRunFacts Engine EngineFacts EngineSettle EngineLive.
 Import ListNotations.
 Local Open Scope Z_scope.
 
@@ -81,3 +81,17 @@ Theorem C15_engine_skipped_overwritten_refuted :
                Engine.store s 2 = SSkipped /\ Engine.store s' 2 = SRunning.
 Proof. exact skipped_overwritten_refuted. Qed.
 Print Assumptions C15_engine_skipped_overwritten_refuted.
+
+(** with commands issued and picked up at quiescent points: finality for the code as it is ([validate] arbitrary) *)
+Theorem C15_engine_quiet_commands_finished_final : forall tasks deps validate (rank : Z -> nat),
+  NoDup tasks ->
+  (forall t d, In d (deps t) -> (rank d < rank t)%nat) ->
+  (forall t d, In t tasks -> In d (deps t) -> In d tasks) ->
+  forall ls s l s' t, run tasks deps validate true true boot ls = Some s ->
+  step tasks deps validate true true s l = Some s' -> done (Engine.store s t) = true -> Engine.store s' t = Engine.store s t.
+Proof.
+  intros tasks deps validate rank Hnd Hrank Hclosed ls s l s' t Hr Hs.
+  apply (quiet_done_final tasks deps validate s l s' t); [|exact Hs].
+  exact (invq_reach tasks deps validate rank Hnd Hrank Hclosed ls boot s (invq_boot tasks deps) Hr).
+Qed.
+Print Assumptions C15_engine_quiet_commands_finished_final.
